@@ -20,12 +20,12 @@ CHECKS = {
             "DESIGN.md section 3 C01"),
     "C02": ("exploration",
             "Hypothesis-generated synthetic ROMS files and positions; differential against an independent C-grid interpolator + convexity, linear-exactness and subgrid-vs-full-grid metamorphic relations",
-            "Synthetic grid/forcing files (sizes, N incl. 1, both transforms, random stretching, bathymetries, masks with garbage on land faces, f8/f4/packed storage, legal subgrids incl. negative spellings) are read by the real Grid and Forcing; velocity and scalar forcing at 24-48 positions (uniform, edges, corners, +-1 ulp, rim; depths on levels, above the surface, below the bottom) are compared with the reference, with the node range, with the closed form for linear fields, and between subgrid and full grid; the sampled frame is the first or (after five clock/forcing updates) the second, which may live in a file of its own with its own storage and packing parameters; in two fifths of the cases some particles die after the forcing was evaluated and are removed from the state (what a sparse output record does) before the velocity of the survivors is requested; in a third of the cases the vertical set-up comes from an explicit Vinfo that differs from what the file records (other transform and critical depth, stretching from parameters), in half of the second-frame cases the particles change depth just before the last forcing update, and in half of the masked cases only the second frame has non-zero values on land faces; a third of the cases are backwards runs (the clock starts at the later frame), where the velocity felt is compared with its sign turned.",
+            "Synthetic grid/forcing files (sizes, N incl. 1, both transforms, random stretching, bathymetries, masks with garbage on land faces, f8/f4/packed storage, legal subgrids incl. negative spellings) are read by the real Grid and Forcing; velocity and scalar forcing at 24-48 positions (uniform, edges, corners, +-1 ulp, rim; depths on levels, above the surface, below the bottom) are compared with the reference, with the node range, with the closed form for linear fields, and between subgrid and full grid; the sampled frame is the first or (after five clock/forcing updates) the second, which may live in a file of its own with its own storage and packing parameters; in two fifths of the cases some particles die after the forcing was evaluated and are removed from the state (what a sparse output record does) before the velocity of the survivors is requested; in a third of the cases the vertical set-up comes from an explicit Vinfo that differs from what the file records (other transform and critical depth, stretching from parameters), in half of the second-frame cases the particles change depth just before the last forcing update, and in half of the masked cases only the second frame has non-zero values on land faces; a third of the cases are backwards runs (the clock starts at the later frame), where the velocity felt is compared with its sign turned; depth histories change the depth by assignment or in place.",
             "At exactly half-way positions either neighbouring cell is accepted as the particle's own cell; tolerance 1e-12 (f8) / 8*2^-23 (f4, packed).",
             "DESIGN.md section 3 C02"),
     "C03": ("exploration",
             "Hypothesis-generated frame/file layouts; per-step differential against an independent 'lerp between bracketing frames' reference at static probes",
-            "Frame layouts (gaps 1..12 steps incl. all-equal-to-dt, irregular), every kind of partition into files, start offsets, run lengths, both directions, 0-2 scalar fields, probes entering up to five steps into the run, f4/f8 or a storage per file (float or packed with per-file scale_factor/add_offset) are generated; Forcing is driven step by step exactly as Model.update orders the calls, and velocity (also a drawn pattern of look-ahead requests per step: one fraction only, the same fraction twice, 0.5 then 1.0, RK4's 0.5, 0.5, 1.0) and scalars are compared with the reference after every step. Exploration: finds layout-dependent hand-over errors, proves nothing beyond the cases run.",
+            "Frame layouts (gaps 1..12 steps incl. all-equal-to-dt, irregular), every kind of partition into files, start offsets, run lengths, both directions, 0-2 scalar fields, probes entering up to five steps into the run, f4/f8 or a storage per file (float or packed with per-file scale_factor/add_offset), optionally a time unit and epoch per file, are generated; Forcing is driven step by step exactly as Model.update orders the calls, and velocity (also a drawn pattern of look-ahead requests per step: one fraction only, the same fraction twice, 0.5 then 1.0, RK4's 0.5, 0.5, 1.0) and scalars are compared with the reference after every step. Exploration: finds layout-dependent hand-over errors, proves nothing beyond the cases run.",
             "Reference interpolator in vlib/roms.py written from the property text; tolerance (maxgap+4)*4*eps; reversed runs accept either bracketing frame for scalars between frame steps.",
             "DESIGN.md section 3 C03"),
     "C04": ("exploration",
@@ -50,12 +50,12 @@ CHECKS = {
             "DESIGN.md section 3 C16"),
     "C08": ("fault_enumeration",
             "Hypothesis-generated scenarios; every file boundary of the split run enumerated as a crash/restart point; differential uninterrupted vs restarted run, record by record",
-            "Generated simulations (continuous/discrete release, ageing IBM with lifetime, scripted kills, flow out of the grid, scalar forcing copied to the state, EF/RK2/RK4, particle variables, a state variable optionally stored packed in the restart file, durations that are / are not multiples of the period) are run split with numrec 1..4; each completed file is used for a warm start configured as the documentation describes, and every later file of the restarted run is compared with the uninterrupted one (times, pid sets, all instance variables, particle variables, file names). Restart points are enumerated completely per scenario; scenarios are sampled.",
-            "Diffusion off; f8 forcing and output; tolerance 1e-9; a restarted run may end with one extra record (or an empty/extra file) at the stop time, which is not compared; 'active' is not output and hence not restartable, so no deactivation is scripted.",
+            "Generated simulations (continuous/discrete release, ageing IBM with lifetime, scripted kills, flow out of the grid, scalar forcing copied to the state, EF/RK2/RK4, particle variables, a state variable optionally stored packed in the restart file, cell sizes that differ between cells, optionally particles switched off with the flag stored in the restart file, durations that are / are not multiples of the period) are run split with numrec 1..4; each completed file is used for a warm start configured as the documentation describes, and every later file of the restarted run is compared with the uninterrupted one (times, pid sets, all instance variables, particle variables, file names). Restart points are enumerated completely per scenario; scenarios are sampled.",
+            "Diffusion off; f8 forcing and output; tolerance 1e-9; a restarted run may end with one extra record (or an empty/extra file) at the stop time, which is not compared; particles are switched off by the scripted IBM only in the cases (a third) that write the 'active' flag to the file as 0/1 bytes and name it among the warm-start variables - otherwise the flag is not restartable state.",
             "DESIGN.md section 3 C08"),
     "C09": ("exploration",
             "Hypothesis-generated masks, subgrids, flows and positions against a reference of kill / inactive / land-cancel (one step); per-step invariants over generated end-to-end histories observed through recording plug-ins",
-            "One step of the real Tracker on the real Grid with a plug-in forcing that gives every particle its own strong constant velocity (so all schemes prescribe the same move) is compared with the reference outcome; generated simulations (stock forcing, diffusion on/off, all schemes) are observed after every step: the living are finite, inside the valid region and at sea, the dead never return nor appear in a later record - neither in the snapshots nor in the sparse or dense output files themselves -, inactive particles keep X, Y.",
+            "One step of the real Tracker on the real Grid with a plug-in forcing that gives every particle its own strong constant velocity (so all schemes prescribe the same move) is compared with the reference outcome; generated simulations (stock forcing, diffusion on/off, all schemes) are observed after every step: the living are finite, inside the valid region and at sea, the dead never return nor appear in a later record - neither in the snapshots nor in the sparse or dense output files themselves (positions stored as floats or packed as integers) -, inactive particles keep X, Y.",
             "A candidate position exactly half-way between two cells may be attributed to either; with diffusion on only the invariants apply.",
             "DESIGN.md section 3 C09"),
     "C10": ("exploration",
@@ -70,12 +70,12 @@ CHECKS = {
             "DESIGN.md section 3 C11"),
     "C14": ("exploration",
             "Hypothesis-generated base scenario + one generated variant (drop/add/permute rows, kill others, whole-step time shift, repeat); metamorphic relation: per-particle trajectories bit-identical up to renumbering",
-            "Base scenarios have depth- and position-dependent currents over variable bathymetry, cell sizes that differ between cells (two thirds of the cases), land, scripted deaths by tag followed by output steps, lifetimes, late releases, scalar forcing, an ageing IBM, both layouts and split files; the generator has fixed shares of directed flavours: coastal (release next to land, onshore flow faster than a cell per step, particles switched off or killed early that linger in the state), stage_cross (deaths seen by a sparse record while Runge-Kutta stages leave the start cell), units_shift (forcing time axis in days/hours since another epoch, whole-step shifts), border (a switched-off particle and another one leaving the grid), empty_gap (the model running empty until a later release), dense_release (dense layout, a death, then a release; a tag must stay in one column of the particle axis); every release row carries a unique tag so that trajectories are matched after renumbering; all variables of every record must be bit-identical (f8).",
-            "mult = 1 for every row (unique tags); diffusion off.",
+            "Base scenarios have depth- and position-dependent currents over variable bathymetry, cell sizes that differ between cells (two thirds of the cases), release positions given as longitude / latitude on a curvilinear grid (half of the generic cases), land, scripted deaths by tag followed by output steps, lifetimes, late releases, scalar forcing, an ageing IBM, both layouts and split files; the generator has fixed shares of directed flavours: coastal (release next to land, onshore flow faster than a cell per step, particles switched off or killed early that linger in the state), stage_cross (deaths seen by a sparse record while Runge-Kutta stages leave the start cell), units_shift (forcing time axis in days/hours since another epoch, whole-step shifts), border (a switched-off particle and another one leaving the grid), empty_gap (the model running empty until a later release), dense_release (dense layout, a death, then a release; a tag must stay in one column of the particle axis); every release row carries a unique tag so that trajectories are matched after renumbering; all variables of every record must be bit-identical (f8).",
+            "mult = 1 for every row (unique tags), identifiers and rows must correspond one to one within a run; diffusion off.",
             "DESIGN.md section 3 C14"),
     "C15": ("exploration",
             "Hypothesis-generated bathymetries, depths and vertical forcing against the validity predicate 0 <= Z' <= h(start cell); exact reflected value for advection-only cases",
-            "The real Tracker on a plug-in grid with generated bathymetry (ratios up to 5000), start depths incl. exactly 0 and h, vertical diffusion and/or advection within the property's premise, all horizontal schemes with flow into other cells, 1-4 steps; part 'stock' repeats it on the stock ROMS Grid built from a generated file (random / eta-sloping / xi-sloping bathymetry, subgrids with i0 != j0) with the reference depth read from the generated bathymetry; between steps some particles may die and be removed while as many new ones are released; the file's critical depth hc takes any value. Part 'run' runs ladim.main with vertical advection and w read from 1-3 generated forcing files, each stored in its own way (f8, f4, three packings), w on rho or w levels, with or without horizontal flow, sparse or dense output: every record keeps 0 <= Z <= h(cell in the previous record), no depth changes by more than the largest |w| on the files times dt, and with vertical movement off Z is bitwise constant.",
+            "The real Tracker on a plug-in grid with generated bathymetry (ratios up to 5000), start depths incl. exactly 0 and h, vertical diffusion and/or advection within the property's premise, all horizontal schemes with flow into other cells, 1-4 steps; part 'stock' repeats it on the stock ROMS Grid built from a generated file (random / eta-sloping / xi-sloping bathymetry, subgrids with i0 != j0) with the reference depth read from the generated bathymetry; between steps some particles may die and be removed while as many new ones are released; the file's critical depth hc takes any value; a sixth of the cases are a crowd resting on a flat bottom with diffusion and advection both on and nearly the whole displacement budget given to the random part. Part 'run' runs ladim.main with vertical advection and w read from 1-3 generated forcing files, each stored in its own way (f8, f4, three packings), w on rho or w levels, with or without horizontal flow, sparse or dense output: every record keeps 0 <= Z <= h(cell in the previous record), no depth changes by more than the largest |w| on the files times dt, and with vertical movement off Z is bitwise constant.",
             "Premise enforced with a 6.5-sigma margin on the random part; only particles starting inside [0, h] are judged; a particle exactly on a cell edge may be given either neighbouring cell.",
             "DESIGN.md section 3 C15"),
     "C17": ("exploration",
@@ -85,12 +85,12 @@ CHECKS = {
             "DESIGN.md section 3 C17"),
     "C18": ("exploration",
             "Hypothesis-generated abstract simulations rendered in several spellings; differential between the output files of the YAML-v2, TOML-v2, YAML-v1 and defaulted-section runs",
-            "Abstract simulations inside the v1 vocabulary (forcing file or wildcard, optional grid file, subgrid, extra forcing, discrete/continuous release, extra release columns as particle variables, IBM module with parameters and variables, scheme, period spellings, reference time) are rendered as YAML v2, TOML v2 (native or string date-times), YAML v1 and a second v2 file with optional sections omitted vs present-but-empty and the grid section omitted / present without a module key (also completely empty) / with the module spelled out; legacy files name forcing and grid file in the gridforce or the files section; discrete releases may still carry a release frequency (legacy: release_type discrete or absent); in a third of the cases Grid and Forcing come from a user file given by path whose metric differs from the stock grid's; all four runs must complete and their output files agree in dimensions, variables, attributes and every value.",
+            "Abstract simulations inside the v1 vocabulary (forcing file or wildcard, optional grid file, subgrid, extra forcing, discrete/continuous release, extra release columns as particle variables, optionally an 'active' column of 0/1 switching rows off, IBM module with parameters and variables, scheme, period spellings, reference time) are rendered as YAML v2, TOML v2 (native or string date-times), YAML v1 and a second v2 file with optional sections omitted vs present-but-empty and the grid section omitted / present without a module key (also completely empty) / with the module spelled out; legacy files name forcing and grid file in the gridforce or the files section; discrete releases may still carry a release frequency (legacy: release_type discrete or absent); in a third of the cases Grid and Forcing come from a user file given by path whose metric differs from the stock grid's; all four runs must complete and their output files agree in dimensions, variables, attributes and every value.",
             "forcing.module is always spelled; empty sections are written as {}.",
             "DESIGN.md section 3 C18"),
     "C19": ("exploration",
             "Hypothesis-generated run lengths, periods, plug-in spellings and cold/warm starts; call-log grammar + state snapshots from recording plug-ins in every module slot",
-            "A recording module (thin subclasses of the stock Grid, Forcing, ParticleReleaser, Tracker, Output and a scripted IBM) is installed in any subset of the six slots under a generated spelling (absolute path with/without .py, relative path, bare name in the working directory with a same-named decoy on sys.path, module name on sys.path); the update calls must follow release, forcing, output, tracker, ibm once per step (plus the output-less catch-up step of a warm start), snapshots taken inside the calls must be consistent with that order, kills take effect from the next record and are never undone in any later call or record (the records are also read back from the files: none holds an identifier seen dead before it was written, also when nobody is left alive), close is called once per module, the decoy never runs, and - plug-in files of different slots may share one file name in different directories - every logged call comes from the file configured for its slot; the first release may come some steps after the start (the model steps with an empty state) and the scalar forcing value in every record must be the one of the frame in force at the record's time. Inside every call the model clock a plug-in can read must be the time of that step (also in the warm start's catch-up step). Part 'legacy': a version-1 file naming a recording IBM by path, with or without a variables list.",
+            "A recording module (thin subclasses of the stock Grid, Forcing, ParticleReleaser, Tracker, Output and a scripted IBM) is installed in any subset of the six slots under a generated spelling (absolute path with/without .py, relative path, bare name in the working directory with a same-named decoy on sys.path, module name on sys.path); the update calls must follow release, forcing, output, tracker, ibm once per step (plus the output-less catch-up step of a warm start), snapshots taken inside the calls must be consistent with that order, kills take effect from the next record and are never undone in any later call or record (the records are also read back from the files: none holds an identifier seen dead before it was written, also when nobody is left alive), close is called once per module, the decoy never runs, and - plug-in files of different slots may share one file name in different directories - every logged call comes from the file configured for its slot; the first release may come some steps after the start (the model steps with an empty state), in half of the cases the forcing ends exactly at the stop time, and the scalar forcing value in every record must be the one of the frame in force at the record's time. Inside every call the model clock a plug-in can read must be the time of that step (also in the warm start's catch-up step). Part 'legacy': a version-1 file naming a recording IBM by path, with or without a variables list.",
             "Recording classes log and delegate to the stock implementation.",
             "DESIGN.md section 3 C19"),
     "C20": ("fault_enumeration",
